@@ -106,7 +106,7 @@ namespace OpenMEEG::maths {
         unsigned create_block_index(const Range& r) try {
             const unsigned ind = ranges.find_index(r);
             return ind;
-        } catch(...) {
+        } catch(const NonExistingRange&) {
             ranges.push_back(r);
             return ranges.size()-1;
         }
